@@ -230,7 +230,7 @@ def render(rec, seed):
 # ------------------------------------------------------------------------------------------------
 # a small literal shift count, not continued by an operator that binds tighter than the shift ('3 + big',
 # '3 * big', '3 / 1 - big', '3 - -big', '-1 % big') or by a call '3 (big)', whose value would be the count
-_SMALL = r"\s*-?(\d{1,4})\.?(?![\w$.])(?![ \t]*[-+*/(%])"
+_SMALL = r"\s*-?(\d{1,4})\.?(?![\w$.])(?!\s*[-+*/(%])"        # \s: an expression continues across a newline ('>> 0' / '-4294967297')
 _SHIFT = re.compile(r"<<|>>|(?<![\w$.])_")
 _REPEAT = re.compile(r"repeat\b\s*(\S*)", re.I)
 _ALIGN = re.compile(r"align\b\s*(\S*)", re.I)
